@@ -345,6 +345,8 @@ struct Gen {
 				}
 			}
 		}
+		// not placed so far: append at top level, while the top level variables are still known (vars is truncated below)
+		if (depth == 0 && aliasPending) genAliasPattern(out);
 		vars.resize(nvars);
 	}
 };
@@ -363,7 +365,6 @@ static Program genProgram(Rng &rng, int maxStmts, int maxDepth, bool malformed) 
 	}
 	p.aliasPattern = g.aliasPending = rng.chance(1, 4);
 	g.genBlock(p.stmts, 1000);
-	if (g.aliasPending) g.genAliasPattern(p.stmts);   // not placed inside the block: append at top level
 	return p;
 }
 
